@@ -81,3 +81,18 @@ Example C16_ex :
   recover_native_denom "transfer/channel-7/transfer/channel-3" "transfer" "channel-7" = Ok "transfer/channel-3" /\
   ics20_credit_denom "transfer/channel-7/transfer/channel-3/uatom" "transfer" "channel-7" = UnescrowHashed.
 Proof. vm_compute. repeat split; reflexivity. Qed.
+
+(* ---------- on ANY chain, whatever its Hyperlane hooks charge for gas: a transfer that is executed makes the same
+   external calls (so hands the route the same coin) and records the same statistics as on the chain without
+   charging hooks, where the theorems above describe them ---------- *)
+From Orbiter Require Import Proofs.GasHistories.
+Theorem C16_any_hooks : forall g cfg e w p tape,
+  rr_out (recv_gas g cfg e w p tape 0) = OAckOk ->
+  rr_out (recv cfg e w p tape) = OAckOk /\
+  rr_trace (recv_gas g cfg e w p tape 0) = rr_trace (recv cfg e w p tape) /\
+  rr_stat (recv_gas g cfg e w p tape 0) = rr_stat (recv cfg e w p tape).
+Proof.
+  intros g cfg e w p tape H. destruct (success_trace_hooks g cfg e w p tape H) as [H1 H2].
+  destruct (success_state_hooks g cfg e w p tape H) as [H3 _]. auto.
+Qed.
+Print Assumptions C16_any_hooks.
